@@ -17,14 +17,18 @@ META = {
                   "order either evaluated in place or as evaluated copies) and of a nondeterministic skeleton of an algorithm step: "
                   "if every exposed solution is consistent (evaluated, objectives/constraints/violation/feasibility those of its own "
                   "decoded variables) before a step it is after it, at every step boundary of every trace; an executable trace checker "
-                  "`accepts` is proved sound. Tie to /repo on every run: all 15 shipped algorithms are run on small problems "
+                  "`accepts` is proved sound; literal data-flow models of the step functions of all 15 algorithms (incl. restart injection) are "
+                  "proved to be instances of that skeleton. Tie to /repo on every run: all 15 shipped algorithms are run on small problems "
                   "(5 variable types, constrained or not, min/max, explicit/default operators, serial/copying/thread[/process] evaluators, "
                   "seeds and scripted extreme primitive draws), instrumented from outside; each logged run is shipped to Coq with exact "
                   "float values and must be accepted by the proved checker; an independent oracle re-calls the raw user function for "
                   "every exposed solution at every step boundary.",
     "level_note": "Trusted: Coq kernel + VM; the harness (monkey-patched evaluate_all / __deepcopy__ / run callback, literal printer, shard runner). "
-                  "That each real algorithm IS an instance of the skeleton is established only for the traces sampled (design theorem 5 is not "
-                  "proved); the per-operator flag discipline (design theorem 2) is a premise of the skeleton that the checker tests on every "
+                  "Design theorem 5: step MODELS of all 15 algorithms (Model/AlgSteps.v: selection/variation randomness = tapes, operators / "
+                  "survival / archive insertion = abstract functions with stated contracts 'flag discipline', 'flag clear', 'output subset of "
+                  "input') are proved to be instances of the skeleton (c01_<alg>_step_ok); that the real code follows these models is "
+                  "established on the sampled traces only (generic skeleton check + attribute-wise data-flow rules of the algorithm's model at "
+                  "step boundaries; the ORDER of archive updates relative to evaluation inside a step is not observed). The per-operator flag discipline (design theorem 2) is a premise of the skeleton that the checker tests on every "
                   "submitted solution and an oracle tests per operator, it is proved in C06 not here. The evaluator contract (results in job "
                   "order, in place or copies) is a hypothesis (C12's theorem). The user function is a finite table of the calls logged in the "
                   "run (theorems hold for any function). Constraint-violation sums are modelled exactly; traces whose float sums are inexact "
